@@ -394,6 +394,10 @@ def oracle(ctx, disagreements, broken):
 
 # hand-made cases that always run: padded / odd message types, one block object at two places, an edited message
 CORPUS = [
+    (("IOI", [("L", "55", "X")], "SND", "TGT", 7, False, NOW), "alloc", None),
+    (("LOGON", [("L", "58", "None"), ("L", "55", "True")], "SND", "TGT", 7, False, NOW), "alloc", {"seed": 5, "spell": "str"}),
+    (("D", [("L", "58", "None"), ("G", "453", [[("L", "448", "None"), ("L", "447", "nan")], [("L", "448", ""), ("L", "452", "None")]]),
+            ("L", "55", "False")], "SND", "TGT", 7, False, NOW), "alloc", None),
     (("D ", [("L", "55", "X")], "SND", "TGT", 7, False, NOW), "alloc", None),
     ((" 8 ", [("L", "55", "X")], "SND", "TGT", 7, False, NOW), "alloc", {"seed": 1, "spell": "str"}),
     (("AE", [("L", "55", "X")], "SND", "TGT", 7, False, NOW), "alloc", {"seed": 2, "spell": "fmsg"}),
